@@ -614,10 +614,96 @@ def rule_carry(facts):
     return r
 
 
+def rule_header_retry(facts):
+    r = report.RuleResult("C05.R7", "a header cut anywhere is 'need more bytes': every header read fails with HeaderTooShort, which the stream decoder retries")
+    h = pat.body_of(facts, "LzmaParams::read_header")
+    sh = pat.body_of(facts, "decode::stream::Stream::read_header")
+    r.need("LzmaParams::read_header and Stream::read_header", h is not None and sh is not None)
+    if h is None or sh is None:
+        return r
+    n = 0
+    seen_bodies = set()
+
+    def check(b, inp):
+        """every consuming read on parameter `inp` of body b fails with HeaderTooShort (local helpers are followed)"""
+        nonlocal n
+        if b.defk in seen_bodies:
+            return
+        seen_bodies.add(b.defk)
+        tm = Terms(b)
+        for blk in b.calls():
+            d = flow.declared(blk.term) or ""
+            cal = blk.term.callee
+            if not blk.term.args:
+                continue
+            ai = [i for i, a_ in enumerate(blk.term.args) if pat.has_arg(tm.of_operand(a_), inp) and a_.ty.k == "ref"]
+            if not ai:
+                continue
+            if cal is not None and cal.target().local and facts.by_def.get(cal.target().defk) is not None and \
+                    not short(cal.target().name).startswith(("decode::util", "util::")):
+                hb = facts.by_def[cal.target().defk]
+                check(hb, hb.locals[ai[0] + 1].name)
+                continue
+            if not (d.split("::")[-1].startswith("read") or d.endswith(("fill_buf", "consume"))):
+                continue
+            n += 1
+            # the result must flow into map_err(_, Error::HeaderTooShort) before it is tested / propagated
+            okk = False
+            for x in b.calls():
+                if (flow.declared(x.term) or "").endswith("Result::map_err"):
+                    t0_ = tm.of_operand(x.term.args[0])
+                    if t0_[0] == "call" and len(t0_) > 3 and t0_[3] == blk.idx:
+                        f_ = flow.show(tm.of_operand(x.term.args[1]))
+                        if "HeaderTooShort" in f_ and "closure" not in f_:
+                            okk = True
+            if okk:
+                r.ok("error-class", {"fn": short(b.name), "read": d.split("::")[-1], "on failure": "Error::HeaderTooShort"})
+            else:
+                r.bad("retry|%s|%s" % (short(b.name), d.split("::")[-1]), "a header read (%s in %s) does not fail with Error::HeaderTooShort: a header "
+                      "cut there is fatal for the stream decoder but fine for the one-shot decoder" % (d.split("::")[-1], short(b.name)), pat.where(b, blk.idx))
+    check(h, "input")
+    r.sites = n
+    r.need("at least 3 header reads (found %d)" % n, n >= 3)
+    # Stream::read_header: HeaderTooShort -> Ok(State::Header(output)); a failing range-decoder preamble likewise
+    ts = Terms(sh)
+    c = cfg(sh)
+    adt = facts.adt("error::Error")
+    hts = None
+    if adt:
+        for i, v in enumerate(adt["variants"]):
+            if v["name"].endswith("HeaderTooShort"):
+                hts = i
+    sw = None
+    for blk in sh.blocks:
+        if blk.cleanup or blk.term.k != "switch":
+            continue
+        t = ts.of_operand(blk.term.discr)
+        if t[0] == "discr" and pat.has_call(t, "LzmaParams::read_header") and flow.term_has(t, lambda q: q[0] == "as" and q[1] == "Err"):
+            sw = blk
+    if sw is None or hts is None:
+        r.bad("retry|arm", "cannot find the match on the error of read_header in Stream::read_header", pat.where(sh), "unverifiable")
+        return r
+    tgt = dict(sw.term.targets).get(hts)
+    if tgt is None:
+        r.bad("retry|not-retried", "Stream::read_header does not single out Error::HeaderTooShort", pat.where(sh, sw.idx))
+    else:
+        hdr = []
+        for x in c.reachable_from(tgt):
+            for s_ in sh.blocks[x].stmts:
+                if s_.k == "assign" and s_.rv.k == "aggregate" and s_.rv.agg == "adt" and s_.rv.adt_name.endswith("stream::State"):
+                    hdr.append(s_.rv.variant_name or "")
+        errs = [x for x in flow.err_blocks(sh)] if hasattr(flow, "err_blocks") else []
+        if any(v.endswith("Header") for v in hdr) and flow.reaches_ok(sh, tgt) and not any(x in c.reachable_from(tgt) for x in errs if x != tgt):
+            r.ok("path", {"HeaderTooShort": "Ok(State::Header(output)): retried with more bytes"})
+        else:
+            r.bad("retry|arm-effect", "on HeaderTooShort the stream decoder does not stay in the Header state", pat.where(sh, tgt))
+    return r
+
+
 def run(ctx, t0):
     facts = ctx.facts()
     pat.FACTS = facts
-    rules = [rule_purity(facts), rule_constants(facts), rule_staging(facts), rule_refill(facts), rule_commit(facts), rule_carry(facts)]
+    rules = [rule_purity(facts), rule_constants(facts), rule_staging(facts), rule_refill(facts), rule_commit(facts), rule_carry(facts), rule_header_retry(facts)]
     expl = ("Static, structural clauses only: effect analysis of the update-flag family (every caller-visible store / mutable loan is "
             "control dependent on the flag or forwards it), capacity constants from the ADT definitions against the look-ahead tests, "
             "provenance terms of every slice of a staging array handed to a reader and of every fill-position update, finite evaluation "
